@@ -796,58 +796,93 @@ func (b *battery) find(t int) {
 				if oi == 0 {
 					stops = []int{0, 1}
 				}
+				// round 2: the prefix item is a ByteString, or (non-empty prefixes) a Buffer
+				// whose bytes the caller overwrites after Find returned / after the first
+				// Value; every returned item is rendered when it is handed out AND again
+				// after the iteration and Finalize: both must be the reference.
+				ptypes := []string{""}
+				if user != "" {
+					ptypes = []string{"", ",prefix-buffer-reused"}
+				}
 				for _, stop := range stops {
-					flags := "fwd," + fo.name
-					if bw {
-						flags = "bwd," + fo.name
-					}
-					if stop > 0 {
-						flags += ",stop"
-					}
-					query := fmt.Sprintf("Find(id=%d, prefix=%q, %s)", daoID, user, flags)
-					b.cur = func() (string, int, string, string) { return "find", t, query, flags }
-					ic.VM.Estack().PushVal(opts)
-					ic.VM.Estack().PushVal([]byte(user))
-					b.nq++
-					var err error
-					if oi%2 == 1 { // System.Storage.Local.Find: the context comes from the executing contract
-						err = istorage.LocalFind(ic)
-					} else {
-						ic.VM.Estack().PushVal(stackitem.NewInterop(&istorage.Context{ID: daoID}))
-						err = istorage.Find(ic)
-					}
-					if err != nil {
-						b.fail("error", "find", t, flags, query, "iterator", err.Error(), "")
-						continue
-					}
-					it := ic.VM.Estack().Pop().Item()
-					var got []string
-					for {
-						ic.VM.Estack().PushVal(it)
-						_ = iterator.Next(ic)
-						if !ic.VM.Estack().Pop().Bool() {
-							break
+					for pi, ptype := range ptypes {
+						flags := "fwd," + fo.name
+						if bw {
+							flags = "bwd," + fo.name
 						}
-						ic.VM.Estack().PushVal(it)
-						_ = iterator.Value(ic)
-						got = append(got, itemStr(ic.VM.Estack().Pop().Item()))
-						if stop > 0 && len(got) == stop {
-							break
+						if stop > 0 {
+							flags += ",stop"
 						}
-					}
-					ic.Finalize()
-					w := want
-					if stop > 0 && len(w) > stop {
-						w = w[:stop]
-					}
-					b.count("find", len(got))
-					if strings.Join(got, " ") != strings.Join(w, " ") {
-						known := ""
-						if dropMatch(len(got), len(want), func(gi, fi int) bool { return got[gi] == want[fi] },
-							func(fi int) bool { return isCand(exp, fi, q.Prefix) }, stop > 0 && len(got) == stop) {
-							known = "cutprefix-skip:lower-key-equals-trimmed-cache-key"
+						flags += ptype
+						query := fmt.Sprintf("Find(id=%d, prefix=%q, %s)", daoID, user, flags)
+						b.cur = func() (string, int, string, string) { return "find", t, query, flags }
+						ic.VM.Estack().PushVal(opts)
+						var pbuf []byte
+						if pi == 0 {
+							ic.VM.Estack().PushVal([]byte(user))
+						} else {
+							pbuf = []byte(user)
+							ic.VM.Estack().PushItem(stackitem.NewBuffer(pbuf))
 						}
-						b.fail("mismatch", "find", t, flags, query, "["+strings.Join(w, " ")+"]", "["+strings.Join(got, " ")+"]", known)
+						reuseAfterFirst := pi == 1 && (oi+stop)%2 == 1
+						if pi == 1 {
+							b.out[fmt.Sprintf("find:prefix-buffer-reused(after-first-value=%v)", reuseAfterFirst)]++
+						}
+						b.nq++
+						var err error
+						if oi%2 == 1 { // System.Storage.Local.Find: the context comes from the executing contract
+							err = istorage.LocalFind(ic)
+						} else {
+							ic.VM.Estack().PushVal(stackitem.NewInterop(&istorage.Context{ID: daoID}))
+							err = istorage.Find(ic)
+						}
+						if err != nil {
+							b.fail("error", "find", t, flags, query, "iterator", err.Error(), "")
+							continue
+						}
+						if pi == 1 && !reuseAfterFirst {
+							overwrite(pbuf, "inc")
+						}
+						it := ic.VM.Estack().Pop().Item()
+						var got []string
+						var items []stackitem.Item
+						for {
+							ic.VM.Estack().PushVal(it)
+							_ = iterator.Next(ic)
+							if !ic.VM.Estack().Pop().Bool() {
+								break
+							}
+							ic.VM.Estack().PushVal(it)
+							_ = iterator.Value(ic)
+							items = append(items, ic.VM.Estack().Pop().Item())
+							got = append(got, itemStr(items[len(items)-1]))
+							if reuseAfterFirst && len(got) == 1 {
+								overwrite(pbuf, "inc")
+							}
+							if stop > 0 && len(got) == stop {
+								break
+							}
+						}
+						ic.Finalize()
+						late := make([]string, len(items))
+						for i, x := range items {
+							late[i] = itemStr(x)
+						}
+						w := want
+						if stop > 0 && len(w) > stop {
+							w = w[:stop]
+						}
+						b.count("find", len(got))
+						if strings.Join(got, " ") != strings.Join(w, " ") {
+							known := ""
+							if dropMatch(len(got), len(want), func(gi, fi int) bool { return got[gi] == want[fi] },
+								func(fi int) bool { return isCand(exp, fi, q.Prefix) }, stop > 0 && len(got) == stop) {
+								known = "cutprefix-skip:lower-key-equals-trimmed-cache-key"
+							}
+							b.fail("mismatch", "find", t, flags, query, "["+strings.Join(w, " ")+"]", "["+strings.Join(got, " ")+"]", known)
+						} else if strings.Join(late, " ") != strings.Join(w, " ") {
+							b.fail("mismatch", "find:item-changed-after-it-was-returned", t, flags, query, "["+strings.Join(w, " ")+"]", "["+strings.Join(late, " ")+"]", "")
+						}
 					}
 				}
 			}
